@@ -25,6 +25,8 @@ func init() {
 			"registry insertions are paired with the subscription counter, TriggerCountInc with initialized.Store(true); the trigger id derives from the input hash and the headers hash; Source.Start has one call site, under a detached context, with tear-down on its error edge; " +
 			"sources call Done() after every Error()/Complete(). It does not decide that the counters return to zero for every history.",
 		Mutants: []Mutant{
+			{Name: "failed flush removes the subscription by id (reverts part of the F52 fix)", File: resolveGo, Rule: "C13-R14", Key: "Resolver.executeSubscriptionUpdate/removes-by-id-although-it-holds-the-subscription",
+				Old: "\t\t// If flush fails (e.g. client disconnected), remove the subscription.\n\t\tr.unsubscribeState(sub)\n", New: "\t\t// If flush fails (e.g. client disconnected), remove the subscription.\n\t\t_ = r.UnsubscribeSubscription(sub.id)\n"},
 			{Name: "updater callbacks delivered to whatever trigger holds the id (reverts part of the F36 fix)", File: resolveGo, Rule: "C13-R13", Key: "Resolver.handleTriggerComplete/snapshotSubscriptions-of-own-trigger-only",
 				Old: "func (r *Resolver) handleTriggerComplete(updater *subscriptionUpdater) {\n\ttrig, ok := r.triggerOf(updater)\n", New: "func (r *Resolver) handleTriggerComplete(updater *subscriptionUpdater) {\n\ttrig, ok := r.getTrigger(updater.triggerID)\n"},
 			{Name: "a live subscription identifier is overwritten in the indexes (reverts the F34 fix)", File: resolveGo, Rule: "C13-R12", Key: "Resolver.addSubscription/registers-only-an-unused-id",
@@ -71,6 +73,7 @@ func init() {
 
 func runC13(r *fw.Run) {
 	defer c13OwnTrigger(r)
+	defer c13InternalCleanupByIdentity(r)
 	defer c13DeliveryOwnTrigger(r)
 	defer c13RegistrationNeverOverwrites(r)
 	defer c13RemovedFlagOnlyByTheRemover(r)
@@ -1566,4 +1569,44 @@ func c13DeliveryOwnTrigger(r *fw.Run) {
 		in.Run(nil)
 	}
 	r.Expect("C13-R13", "uses of a found trigger's subscribers reachable from delivering callbacks", n, 4)
+}
+
+// c13InternalCleanupByIdentity (R14): subscription identifiers are chosen by clients and re-used (an operation id is free
+// again as soon as its operation has ended). Resolver-internal clean-up that runs asynchronously — the late failure of a
+// joining subscriber's startup hook, a failed flush or heartbeat — knows exactly which subscription it is cleaning up: it
+// holds the *subscriptionState. Removing by id instead removes whoever holds the id *now*: the successor operation loses
+// its record, its completed channel is closed without an error or complete, and if it was the only subscriber its
+// upstream is cancelled. The by-id API (UnsubscribeSubscription) is for callers that have nothing but the id: inside
+// package resolve it is never called with the id of a subscription state or of an add request (x.id); clean-up that
+// holds the state uses the identity-checked removal.
+func c13InternalCleanupByIdentity(r *fw.Run) {
+	p := r.Prog
+	r.Rule("C13-R14", "inside package resolve the by-id removal (UnsubscribeSubscription) is never called with the id field of a subscription state or add request: clean-up that holds the subscription removes it by identity (the id may belong to a successor by then)")
+	nCalls, nBad := 0, 0
+	for _, fi := range p.Funcs("resolve") {
+		info := fi.Info()
+		ord := 0
+		fw.WalkAll(fi.Decl.Body, func(nd ast.Node) bool {
+			c, ok := nd.(*ast.CallExpr)
+			if !ok || !fw.CallIs(info, c, "resolve", "Resolver.UnsubscribeSubscription") || len(c.Args) != 1 {
+				return true
+			}
+			nCalls++
+			sel, isSel := ast.Unparen(c.Args[0]).(*ast.SelectorExpr)
+			if !isSel || sel.Sel.Name != "id" {
+				return true
+			}
+			tv, okT := info.Types[sel.X]
+			if !okT || !(fw.TypeIs(tv.Type, "resolve", "subscriptionState") || fw.TypeIs(tv.Type, "resolve", "addSubscription")) {
+				return true
+			}
+			nBad++
+			ord++
+			r.Fail("C13-R14", fi.Name()+"/removes-by-id-although-it-holds-the-subscription#"+itoa(ord), p.Pos(c.Pos()), "clean-up that holds the subscription removes it by identity",
+				"the subscription is removed by its id although the caller holds the subscription itself: by the time this asynchronous clean-up runs (a late startup-hook failure, a failed write) the client may have ended that operation and started a new one under the same id — the new operation's record is removed, its completed channel closed without error or complete, and a trigger it alone kept alive is cancelled")
+			return true
+		})
+	}
+	r.Check(nBad == 0, "C13-R14", "no-internal-removal-by-id", "-", "none of the "+itoa(nCalls)+" UnsubscribeSubscription calls in package resolve passes the id of a held subscription", "see the individual sites")
+	r.Expect("C13-R14", "UnsubscribeSubscription calls in package resolve", nCalls, 2)
 }
